@@ -102,6 +102,10 @@ impl<F: FixedChannelRegion> RegionHandler for FixedChannelPlan<F> {
     fn process_join_accept(&mut self, c_f_list: Option<&CfList>) {
         if let Some(CfList::FixedChannel(channel_mask)) = c_f_list {
             self.channel_mask_set(channel_mask.clone());
+        } else {
+            // No channel list: the new session starts from the default channels, not
+            // from the mask a previous session was given.
+            self.channel_mask = Default::default();
         }
     }
 
